@@ -18,6 +18,16 @@ import (
 // type). Unlike core.Slice it goes *through* calls (a result depends on every argument,
 // varargs arrays included) and through local arrays/structs built element by element.
 func FlowLoads(v ssa.Value) (fields map[string]bool, leaves []ssa.Value) {
+	return flowLoads(v, false)
+}
+
+// FlowLoadsDeep additionally treats a local object as depending on the arguments of every
+// call it is passed to by address (`var s Sig; s.Deserialize(x)` makes s depend on x).
+func FlowLoadsDeep(v ssa.Value) (fields map[string]bool, leaves []ssa.Value) {
+	return flowLoads(v, true)
+}
+
+func flowLoads(v ssa.Value, deep bool) (fields map[string]bool, leaves []ssa.Value) {
 	fields = map[string]bool{}
 	seen := map[ssa.Value]bool{}
 	var walk func(v ssa.Value)
@@ -38,6 +48,14 @@ func FlowLoads(v ssa.Value) (fields map[string]bool, leaves []ssa.Value) {
 				for _, r2 := range *x.Referrers() {
 					if s, ok := r2.(*ssa.Store); ok && s.Addr == ssa.Value(x) {
 						walk(s.Val)
+					}
+				}
+			case *ssa.Call:
+				if deep {
+					for _, arg := range x.Call.Args {
+						if arg != ssa.Value(a) {
+							walk(arg)
+						}
 					}
 				}
 			}
